@@ -27,6 +27,7 @@ def make_config(seed, tier="quick"):
     thorough = tier == "thorough"
     n_tasks = r.choice([2, 2, 3])
     return dict(
+        u8=random.Random(seed ^ 0xC14A8).random() < 0.3,  # non-ASCII values in application messages (separate stream)
         seed=seed,
         eut_role=r.choice(["acceptor", "initiator"]),
         hb=r.choice([1, 2, 3, 3, 30]),
@@ -152,7 +153,7 @@ class SendersSim(PeerSim):
                 m = FIXMessage("5", {58: f"task {i} logout {k}"})
             else:
                 m = FIXMessage(mtype, {11: mid, 55: "ES", 54: "1", 38: k + 1, 44: "3.25"})
-                m[58] = f"task {i} msg {k}"
+                m[58] = (f"t\u00e4sk {i} msg {k} \u20ac\u4e2d" if self.cfg.get("u8") else f"task {i} msg {k}")
             ent = dict(task=i, k=k, mid=mid, type=mtype, status="pending", exc=None)
             ent["ev0"] = self.rec("send_call", i, k)
             self.send_log.append(ent)
